@@ -45,6 +45,13 @@ def items_for(isa, shapes, N, classes, timeout_ms):
 def run_items(chk, items, rule, extra_cov=None):
     e0mod.build()
     t = time.time()
+    # every 12th x86-64 obligation also validates the ISA table against the real CPU (native replay of its witnesses)
+    k = 0
+    for it in items:
+        if it['isa'] == 'x86_64':
+            k += 1
+            if k % 12 == 0:
+                it['native_validate'] = True
     results = fw.pmap(smerun.run_item, items, order_seed=fw.seed())
     cnt, samples = smerun.aggregate(chk, results, key_of, what_of)
     kinds = {}
@@ -60,6 +67,8 @@ def run_items(chk, items, rule, extra_cov=None):
         'rule': rule, 'samples': samples,
         'solver_queries': cnt['queries'], 'solver_seconds': cnt['solver_s'],
         'vacuity_witnesses_sat': cnt['vacuity_witnesses'],
+        'isa_table_validated_natively': {'witness_states_agreeing_with_the_real_cpu': cnt.get('native_validated', 0),
+                                         'not_comparable': cnt.get('native_not_comparable', 0)},
         'per_kind': [{'isa': k[0], 'kind': k[1], 'N': k[2], 'shapes': v} for k, v in sorted(kinds.items())],
         'functions_encoded': "code emitted by axcut2backend::statements::*::code_statement with the Instructions/Memory/"
                              "ParallelMoves/Utils implementations of the back end, printed by impl Print/Display for Code",
